@@ -367,9 +367,13 @@ class Sym:
         self.rd = reach_defs(fx, fn)
         self.modwrap = modwrap        # resolve values modulo full-circle adjustments
         self._depth = 0
+        self.parent = None            # Sym of the caller activation (inlined helpers)
+        self.callsite = None          # call node in the caller
 
-    def child(self, fn, env):
-        return Sym(self.fx, fn, env, self.modwrap)
+    def child(self, fn, env, callsite=None):
+        c = Sym(self.fx, fn, env, self.modwrap)
+        c.parent, c.callsite = self, callsite
+        return c
 
     # -- resolution of a local/param use to the expression that defines it
     def _wrap_adjust_source(self, did):
@@ -576,7 +580,8 @@ class Sym:
         if k == "CallExpr":
             return "%s(%s)" % (plain_callee(n), ",".join(self.ctext(a) for a in call_args(n)))
         if k == "CXXOperatorCallExpr":
-            return "op%s(%s)" % (n.get("op"), ",".join(self.ctext(a) for a in call_args(n)))
+            return "%s(%s)" % (plain_callee(n) or ("operator" + str(n.get("op"))),
+                               ",".join(self.ctext(a) for a in call_args(n)))
         if k in ("CXXConstructExpr", "CXXTemporaryObjectExpr"):
             if len(c) == 1:
                 return self.ctext(c[0])
@@ -696,3 +701,1305 @@ def wrap_loop(loop):
     else:
         return None
     return {"var": var, "cmp": op, "bound": bound, "step": steps[0][1], "sign": steps[0][0], "kind": k}
+
+
+# =========================================================================== class helpers
+
+LL = "GNU_gama::local::LocalLinearization"
+AOV = "GNU_gama::local::AllObservationsVisitor"
+OBS = "GNU_gama::local::Observation"
+
+
+def class_rec(fx, base):
+    """Class record of a base-specifier (by full template name first, then stripped name)."""
+    r = fx.class_insts.get(base.get("qnt") or "")
+    if r is None:
+        r = fx.class_insts.get(base.get("t") or "")
+    if r is None:
+        r = fx.classes.get(strip_targs(base.get("qn") or ""))
+    return r
+
+
+def all_bases(fx, rec):
+    """Transitive base class records, following the exact template instantiations."""
+    out, seen, todo = [], set(), [rec]
+    while todo:
+        r = todo.pop()
+        for b in r.get("bases", []):
+            br = class_rec(fx, b)
+            name = b.get("qnt") or b.get("t") or b.get("qn")
+            if name in seen:
+                continue
+            seen.add(name)
+            out.append((name, br))
+            if br is not None:
+                todo.append(br)
+    return out
+
+
+def derives_from(fx, rec, qn):
+    return any(strip_targs(n) == qn for n, _ in all_bases(fx, rec))
+
+
+def observation_classes(fx):
+    """Concrete classes deriving from local::Observation: short name -> record."""
+    res = {}
+    for q, rec in fx.classes.items():
+        if not q.startswith("GNU_gama::local::") or rec.get("abstract"):
+            continue
+        if derives_from(fx, rec, OBS):
+            res[q] = rec
+    return res
+
+
+def visit_target(m):
+    """Observation class visited by a `visit(T*)` method record, or None."""
+    ps = m.get("params") or []
+    if m.get("name") != "visit" or len(ps) != 1:
+        return None
+    t = ps[0]["t"] if isinstance(ps[0], dict) else ps[0]
+    t = t.strip()
+    if not t.endswith("*"):
+        return None
+    t = t[:-1].strip()
+    if t.startswith("const "):
+        t = t[6:]
+    return t
+
+
+def is_angular(fx, cls):
+    """True iff `cls::angular()` is overridden to return the literal true."""
+    for f in fx.fns(cls + "::angular"):
+        for n in f.walk():
+            if n.get("k") == "ReturnStmt":
+                for x in walk(n):
+                    if x.get("k") == "CXXBoolLiteralExpr":
+                        return bool(x.get("v"))
+    return False
+
+
+def methods_in_hierarchy(fx, rec):
+    """Function objects of all methods declared in rec and its bases, most-derived first."""
+    out = []
+    for r in [rec] + [br for _, br in all_bases(fx, rec) if br is not None]:
+        for m in r.get("methods", []):
+            f = fx.functions.get(m.get("key"))
+            if f is not None:
+                out.append((r, m, f))
+    return out
+
+
+def dispatch(fx, rec, callee_key, name, nparams_sig):
+    """Resolve a call on `this` relative to the most derived class `rec`: the first method in the
+    hierarchy (most derived first) with the same name and parameter list that has a body."""
+    for r, m, f in methods_in_hierarchy(fx, rec):
+        if m.get("name") == name and tuple(m.get("params") or ()) == nparams_sig and f.body is not None:
+            return f
+    return fx.functions.get(callee_key)
+
+
+# =========================================================================== handler model (B1 + slots)
+
+class Violation:
+    def __init__(self, what, fn, node, msg):
+        self.what, self.fn, self.node, self.msg = what, fn, node, msg
+
+
+class HandlerModel:
+    """Abstract interpretation of one visit(T*) activation of the linearisation class.
+
+    State: (n, pc, pi, slots)  n = value of `size` (None = not yet reset), pc/pi = pending coefficient /
+    index expression of the slot `size` points at, slots = tuple of completed (index, coeff) pairs.
+    Expressions are closures (Sym, node)."""
+
+    def __init__(self, fx, rec, entry, fields, bound, modwrap=False):
+        self.fx, self.rec, self.entry = fx, rec, entry
+        self.f = fields
+        self.bound = bound
+        self.violations = []
+        self.rhs_sites = []        # (Sym, assignment node)
+        self.size_resets = 0
+        self.functions = []
+        self.closures = {}
+        self.modwrap = modwrap
+        self._touch = {}
+        sym = Sym(fx, entry, None, modwrap)
+        self.final = self.run(entry, sym, {(None, None, None, ())})
+
+    def clo(self, sym, node):
+        key = (id(sym), node["id"])
+        self.closures[key] = (sym, node)
+        return key
+
+    def is_field(self, n, role):
+        return F.is_this_field(n, self.f[role])
+
+    def _this_callee(self, n):
+        """Function called on `this` inside the class hierarchy, or None."""
+        if n.get("k") != "CXXMemberCallExpr":
+            return None
+        obj = F.call_object(n)
+        if obj is None or obj.get("k") != "CXXThisExpr":
+            return None
+        key = n.get("calleeKey")
+        f0 = self.fx.functions.get(key)
+        if f0 is None:
+            return None
+        m = None
+        for r, mm, f in methods_in_hierarchy(self.fx, self.rec):
+            if f is f0:
+                m = mm
+        if m is None:
+            return None
+        return dispatch(self.fx, self.rec, key, m["name"], tuple(m.get("params") or ()))
+
+    def touches(self, fn, stack=()):
+        """Does fn (transitively through this-calls) write size/coeff/index/rhs?"""
+        if fn.key in self._touch:
+            return self._touch[fn.key]
+        if fn.key in stack:
+            return False
+        res = False
+        for n in fn.walk():
+            k = n.get("k")
+            c = n.get("c") or []
+            if k in ("BinaryOperator", "CompoundAssignOperator") and c and \
+                    n.get("op") in ("=", "+=", "-=", "*=", "/="):
+                lhs = c[0]
+                if lhs.get("k") == "ArraySubscriptExpr":
+                    lhs = lhs["c"][0]
+                if any(self.is_field(lhs, r) for r in ("size", "coeff", "index", "rhs")):
+                    res = True
+            elif k == "UnaryOperator" and n.get("op") in ("++", "--") and c and self.is_field(c[0], "size"):
+                res = True
+            elif k == "CXXMemberCallExpr":
+                cal = self._this_callee(n)
+                if cal is not None and cal.body is not None and self.touches(cal, stack + (fn.key,)):
+                    res = True
+        self._touch[fn.key] = res
+        return res
+
+    def _subscript(self, lhs):
+        """('size'|'size++'|None) form of the subscript of coeff[..]/index[..]."""
+        sub = lhs["c"][1]
+        while sub.get("k") in CASTS and sub.get("c"):
+            sub = sub["c"][0]
+        if self.is_field(sub, "size"):
+            return "size", None
+        if sub.get("k") == "UnaryOperator" and sub.get("op") == "++" and sub.get("postfix") \
+                and self.is_field(sub["c"][0], "size"):
+            return "size++", sub
+        return None, sub
+
+    def run(self, fn, sym, states):
+        if fn.body is None:
+            return states
+        self.functions.append(fn)
+        cfg = fn.cfg
+        nodes = fn.nodes
+        # events of this function
+        deferred_inc = set()
+        for n in fn.walk():
+            if n.get("k") == "ArraySubscriptExpr" and (self.is_field(n["c"][0], "coeff")
+                                                       or self.is_field(n["c"][0], "index")):
+                form, sub = self._subscript(n)
+                if form == "size++":
+                    deferred_inc.add(sub["id"])
+        # no relevant event inside a CFG cycle
+        cyc = set()
+        for b in cfg.blocks:
+            for s in cfg.succ.get(b, []):
+                if b in cfg.reachable_blocks_from(s):
+                    cyc.add(b)
+        IN = {b: set() for b in cfg.blocks}
+        IN[cfg.entry] = set(states)
+        work = [cfg.entry]
+        out_states = set()
+        guard = 0
+        while work:
+            guard += 1
+            if guard > 100000:
+                raise AnalysisBroken("R-BND: state propagation does not converge in %s" % fn.key)
+            b = work.pop()
+            sts = set(IN[b])
+            throws = False
+            for e in cfg.blocks[b].get("el", []):
+                if not isinstance(e, int):
+                    continue
+                n = nodes.get(e)
+                if n is None:
+                    continue
+                if n.get("k") == "CXXThrowExpr":
+                    throws = True
+                new = self.transfer(fn, sym, n, sts, deferred_inc, b in cyc)
+                if new is not None:
+                    sts = new
+            if b == cfg.exit:
+                out_states |= sts
+                continue
+            if throws:
+                continue        # the activation is abandoned: nothing is handed to the consumer
+            succs = cfg.succ.get(b, [])
+            if not succs:
+                # noreturn/throw block without edge: path ends
+                continue
+            for s in succs:
+                if not sts <= IN[s]:
+                    IN[s] |= sts
+                    work.append(s)
+        return out_states
+
+    def transfer(self, fn, sym, n, sts, deferred_inc, in_cycle):
+        k = n.get("k")
+        c = n.get("c") or []
+
+        def loop_check():
+            if in_cycle:
+                raise AnalysisBroken("R-BND: write to %s/%s/%s inside a loop of %s - the handlers are "
+                                     "expected to be loop-free in their slot code"
+                                     % (self.f["size"], self.f["coeff"], self.f["index"], fn.key))
+
+        if k == "BinaryOperator" and n.get("op") == "=" and len(c) == 2:
+            lhs, rhs = c
+            if self.is_field(lhs, "rhs"):
+                self.rhs_sites.append((sym, fn, n))
+                return None
+            if self.is_field(lhs, "size"):
+                loop_check()
+                v = sym.poly(rhs).numeric()
+                if v is None or v != int(v):
+                    raise AnalysisBroken("R-BND: %s assigned a non-constant in %s" % (self.f["size"], fn.key))
+                if int(v) != 0:
+                    raise AnalysisBroken("R-BND: %s set to a non-zero constant in %s" % (self.f["size"], fn.key))
+                self.size_resets += 1
+                return {(0, None, None, ())}
+            if lhs.get("k") == "ArraySubscriptExpr":
+                role = "coeff" if self.is_field(lhs["c"][0], "coeff") else \
+                    "index" if self.is_field(lhs["c"][0], "index") else None
+                if role is None:
+                    return None
+                loop_check()
+                form, sub = self._subscript(lhs)
+                if form is None:
+                    raise AnalysisBroken("R-BND: unsupported subscript form %s[%s] in %s"
+                                         % (self.f[role], F.expr_text(sub), fn.key))
+                clo = self.clo(sym, rhs)
+                new = set()
+                for (cnt, pc, pi, slots) in sts:
+                    if cnt is None:
+                        self.violations.append(Violation("reset", fn, n,
+                                               "%s[%s] written before %s is reset on some path"
+                                               % (self.f[role], self.f["size"], self.f["size"])))
+                        cnt = 0
+                    if cnt >= self.bound:
+                        self.violations.append(Violation("bound", fn, n,
+                                               "write to %s[%d] but the array bound is %d"
+                                               % (self.f[role], cnt, self.bound)))
+                    if role == "coeff":
+                        pc = clo
+                    else:
+                        pi = clo
+                    st = (cnt, pc, pi, slots)
+                    if form == "size++":
+                        st = self._inc(fn, n, st)
+                    new.add(st)
+                return new
+            return None
+        if k == "CompoundAssignOperator" and c:
+            lhs = c[0]
+            if self.is_field(lhs, "size"):
+                loop_check()
+                v = sym.poly(c[1]).numeric()
+                if n.get("op") == "+=" and v == 1:
+                    return {self._inc(fn, n, st) for st in sts}
+                raise AnalysisBroken("R-BND: unsupported update of %s in %s" % (self.f["size"], fn.key))
+            if lhs.get("k") == "ArraySubscriptExpr" and (self.is_field(lhs["c"][0], "coeff")
+                                                         or self.is_field(lhs["c"][0], "index")):
+                raise AnalysisBroken("R-BND: compound write to a slot array in %s" % fn.key)
+            return None
+        if k == "UnaryOperator" and c and self.is_field(c[0], "size"):
+            if n["id"] in deferred_inc:
+                return None
+            loop_check()
+            if n.get("op") == "++":
+                return {self._inc(fn, n, st) for st in sts}
+            if n.get("op") == "--":
+                raise AnalysisBroken("R-BND: decrement of %s in %s" % (self.f["size"], fn.key))
+            return None
+        if k == "CXXMemberCallExpr":
+            cal = self._this_callee(n)
+            if cal is not None and cal.body is not None and self.touches(cal):
+                loop_check()
+                env = {}
+                for p, a in zip(cal.params, call_args(n)):
+                    if "decl" in p:
+                        env[p["decl"]] = (a, sym)
+                return self.run(cal, sym.child(cal, env, n), sts)
+        return None
+
+    def _inc(self, fn, n, st):
+        cnt, pc, pi, slots = st
+        if cnt is None:
+            self.violations.append(Violation("reset", fn, n, "%s incremented before it is reset"
+                                             % self.f["size"]))
+            cnt = 0
+        if pc is None or pi is None:
+            missing = self.f["coeff"] if pc is None else self.f["index"]
+            if pc is None and pi is None:
+                missing = "%s and %s" % (self.f["coeff"], self.f["index"])
+            self.violations.append(Violation("pair", fn, n,
+                                   "%s incremented (slot %d) without a write to %s[%s] since the "
+                                   "previous increment" % (self.f["size"], cnt, missing, self.f["size"])))
+            return (cnt + 1, None, None, slots)
+        return (cnt + 1, None, None, slots + ((pi, pc),))
+
+    # -- results
+    def max_count(self):
+        return max([st[0] for st in self.final if st[0] is not None] or [0])
+
+    def dangling(self):
+        return [st for st in self.final if st[1] is not None or st[2] is not None]
+
+    def maximal_slot_sets(self):
+        sets = {st[3] for st in self.final}
+        res = []
+        for s in sets:
+            ss = set(s)
+            if not any(ss < set(o) for o in sets):
+                res.append(s)
+        return res
+
+
+# =========================================================================== shared model of the class
+
+class LinModel:
+    """Everything the rules need about LocalLinearization, extracted once per fact base."""
+
+    def __init__(self, ctx):
+        fx = ctx.facts
+        T = table()
+        self.fx = fx
+        self.fields = T["fields"]
+        self.rec = fx.cls(LL)
+        fl = {f["name"]: f for f in self.rec.get("fields", [])}
+        for role, name in self.fields.items():
+            if name not in fl:
+                raise AnalysisBroken("LocalLinearization has no field %s (role %s)" % (name, role))
+        self.bound_coeff = fl[self.fields["coeff"]].get("arraySize")
+        self.bound_index = fl[self.fields["index"]].get("arraySize")
+        if not self.bound_coeff or not self.bound_index:
+            raise AnalysisBroken("LocalLinearization::coeff/index are no longer fixed arrays")
+        self.bound = min(self.bound_coeff, self.bound_index)
+        self.obs = observation_classes(fx)
+        self.visits = {}              # observation class qn -> Fn of visit(T*)
+        for r, m, f in methods_in_hierarchy(fx, self.rec):
+            t = visit_target(m)
+            if t and t in self.obs and f.body is not None and t not in self.visits:
+                self.visits[t] = f
+        self.models = {}
+        self.models_mw = {}           # same, values resolved modulo wrap adjustments (rhs scale)
+        for t, f in sorted(self.visits.items()):
+            self.models[t] = HandlerModel(fx, self.rec, f, self.fields, self.bound)
+            self.models_mw[t] = HandlerModel(fx, self.rec, f, self.fields, self.bound, modwrap=True)
+            for g in self.models[t].functions:
+                ctx.saw(g)
+        self.angular = {t: is_angular(fx, t) for t in self.obs}
+
+    def tname(self, t):
+        return t.split("::")[-1]
+
+
+_MODEL = {}
+
+
+def lin_model(ctx):
+    m = _MODEL.get(id(ctx.facts))
+    if m is None or m.fx is not ctx.facts:
+        m = LinModel(ctx)
+        _MODEL.clear()
+        _MODEL[id(ctx.facts)] = m
+    else:
+        for hm in m.models.values():
+            for g in hm.functions:
+                ctx.saw(g)
+    return m
+
+
+# =========================================================================== R-BND B1
+
+def rule_bnd(ctx):
+    rule = "R-BND"
+    fx = ctx.facts
+    M = lin_model(ctx)
+    f = M.fields
+    # (a) per handler: bound, pairing, reset
+    for t, hm in sorted(M.models.items()):
+        tn = M.tname(t)
+        fn = hm.entry
+        mx = hm.max_count()
+        byk = {}
+        for v in hm.violations:
+            byk.setdefault(v.what, []).append(v)
+        # bound
+        vb = byk.get("bound", [])
+        ok = not vb and mx <= M.bound
+        ctx.report(rule, "LocalLinearization:%s:B1-bound" % tn, ok,
+                   (vb[0].fn.where(vb[0].node) if vb else fn.where()), fn.short,
+                   msg="" if ok else "up to %d increments of %s on a path, array bound of %s/%s is %d%s"
+                   % (mx, f["size"], f["coeff"], f["index"], M.bound,
+                      "; " + vb[0].msg if vb else ""),
+                   detail={"max_increments": mx, "bound": M.bound, "paths_end_states": len(hm.final)})
+        # pairing
+        vp = byk.get("pair", [])
+        dang = hm.dangling()
+        ok = not vp and not dang
+        msg = ""
+        if vp:
+            msg = vp[0].msg
+        elif dang:
+            msg = "a slot is written at the end of a path but %s is not incremented (the coefficient is " \
+                  "dropped)" % f["size"]
+        ctx.report(rule, "LocalLinearization:%s:B1-paired" % tn, ok,
+                   (vp[0].fn.where(vp[0].node) if vp else fn.where()), fn.short, msg=msg,
+                   detail={"slots_on_longest_path": mx})
+        # reset
+        vr = byk.get("reset", [])
+        ok = not vr and hm.size_resets >= 1
+        ctx.report(rule, "LocalLinearization:%s:B1-reset" % tn, ok,
+                   (vr[0].fn.where(vr[0].node) if vr else fn.where()), fn.short,
+                   msg="" if ok else (vr[0].msg if vr else "%s is never reset to 0" % f["size"]))
+    ctx.floor(rule, 13, len(M.models), "LocalLinearization handlers (visit(T*) entries)")
+    # (b) max_size == array bound
+    ctor_vals = []
+    for fn in fx.methods_of(LL):
+        for init in fn.rec.get("inits", []) or []:
+            if init.get("field") == f["max_size"]:
+                v = Sym(fx, fn).poly(init["init"]).numeric() if init.get("init") is not None else None
+                ctor_vals.append((fn, v))
+    if not ctor_vals:
+        raise AnalysisBroken("R-BND: no constructor initialiser of %s found" % f["max_size"])
+    for fn, v in ctor_vals:
+        ctx.saw(fn)
+        ok = v is not None and v == M.bound_coeff == M.bound_index
+        ctx.report(rule, "LocalLinearization:%s==bound:ctor/%d" % (f["max_size"], len(fn.params)), ok,
+                   fn.where(), fn.short,
+                   msg="" if ok else "%s is initialised to %s but %s[%s] / %s[%s]"
+                   % (f["max_size"], v, f["coeff"], M.bound_coeff, f["index"], M.bound_index))
+    # (c) the consumer reserves rows * max_size
+    consumers = []
+    for g in fx.functions.values():
+        if g.body is None or (g.cls and strip_targs(g.cls) == LL):
+            continue
+        reads = [n for n in g.walk() if n.get("k") == "MemberExpr" and n.get("mk") == "field"
+                 and strip_targs(n.get("owner") or "") == LL
+                 and n.get("member") in (f["coeff"], f["index"], f["max_size"])]
+        if reads:
+            consumers.append((g, reads))
+    for g, reads in consumers:
+        ctx.saw(g)
+        sym = Sym(fx, g)
+        ms = [n for n in reads if n["member"] == f["max_size"]]
+        res = []
+        for n in g.walk():
+            if n.get("k") in ("CXXConstructExpr", "CXXTemporaryObjectExpr") and \
+                    strip_targs(n.get("callee") or "").startswith("GNU_gama::SparseMatrix::SparseMatrix"):
+                a = n.get("c") or []
+                if len(a) == 3:
+                    res.append((n, a))
+        ok, msg = True, ""
+        if not res:
+            ok, msg = False, "reads %s/%s but builds no SparseMatrix reservation here" % (f["coeff"], f["index"])
+        elif not ms:
+            ok, msg = False, "the reservation does not use %s" % f["max_size"]
+        else:
+            atom = sym.poly(ms[0])
+            for n, a in res:
+                if not (sym.poly(a[0]) - sym.poly(a[1]) * atom).is_zero():
+                    ok = False
+                    msg = "SparseMatrix reservation is %s, expected rows*%s = %s" % (
+                        sym.poly(a[0]), f["max_size"], sym.poly(a[1]) * atom)
+        ctx.report(rule, "%s:reserves-rows*%s" % (g.sig, f["max_size"]), ok, g.where(), g.short, msg=msg)
+    ctx.floor(rule, 1, len(consumers), "consumers of LocalLinearization::coeff/index")
+
+
+# =========================================================================== slots (shared by L1 / U1)
+
+def resolve_expr(sym, node, depth=0):
+    """Follow casts, env-bound parameters and uniquely defined locals to the defining expression."""
+    while depth < 50:
+        depth += 1
+        k = node.get("k")
+        if k in CASTS and node.get("c"):
+            node = node["c"][0]
+            continue
+        if _is_local_ref(node):
+            r = sym.resolve(node)
+            if r[0] == "expr":
+                sym, node = r[2], r[1]
+                continue
+            if r[0] == "def":
+                decl, kind, dn, extra = sym.rd.defs[r[1]]
+                if kind in ("init", "assign"):
+                    node = dn
+                    continue
+        break
+    return sym, node
+
+
+class Slot:
+    def __init__(self, hm, pair):
+        isym, inode = hm.closures[pair[0]]
+        csym, cnode = hm.closures[pair[1]]
+        self.coeff = csym.poly(cnode)
+        self.coeff_node, self.coeff_fn = cnode, csym.fn
+        s2, n2 = resolve_expr(isym, inode)
+        self.index_text = s2.ctext(n2)
+        self.accessor = None
+        self.point = None
+        if n2.get("k") == "CXXMemberCallExpr":
+            self.accessor = strip_targs(n2.get("callee") or "")
+            obj = F.call_object(n2)
+            self.point = s2.ctext(obj) if obj is not None else None
+        self.kind = table()["index_accessors"].get(self.accessor)
+
+
+def handler_slots(hm):
+    """One list of Slot per inclusion-maximal path of the handler."""
+    res = []
+    for s in hm.maximal_slot_sets():
+        res.append([Slot(hm, p) for p in s])
+    return res
+
+
+# =========================================================================== R-LIN L1
+
+def rule_lin(ctx):
+    rule = "R-LIN"
+    M = lin_model(ctx)
+    T = table()
+    single = T["single_point_types"]
+    n_axes = 0
+    for t, hm in sorted(M.models.items()):
+        tn = M.tname(t)
+        fn = hm.functions[-1] if hm.functions else hm.entry
+        paths = handler_slots(hm)
+        if not paths or not any(paths):
+            raise AnalysisBroken("R-LIN: no coefficient slot extracted for %s" % tn)
+        for sl in paths:
+            for s in sl:
+                if s.kind is None:
+                    raise AnalysisBroken("R-LIN: %s: index expression %s is not one of the classified "
+                                         "unknown accessors (tables/lin.json index_accessors)"
+                                         % (tn, s.index_text))
+        if tn in single:
+            # exempt, but only as long as it really is a single-point observation
+            pts = {s.point for sl in paths for s in sl if s.kind in ("x", "y", "z")}
+            ok = len(pts) == 1
+            ctx.report(rule, "LocalLinearization:%s:L1-single-point" % tn, ok, fn.where(), fn.short,
+                       msg="" if ok else "%s is listed as a single-point observation (exempt from translation "
+                       "invariance) but its slots refer to %d points" % (tn, len(pts)),
+                       detail={"exempt": single[tn], "points": sorted(pts)})
+            continue
+        axes = sorted({s.kind for sl in paths for s in sl if s.kind in ("x", "y", "z")})
+        for ax in axes:
+            n_axes += 1
+            bad = None
+            info = []
+            for sl in paths:
+                tot = Poly()
+                pts = set()
+                for s in sl:
+                    if s.kind == ax:
+                        tot = tot + s.coeff
+                        pts.add(s.point)
+                info.append({"points": len(pts), "slots": sum(1 for s in sl if s.kind == ax)})
+                if not tot.is_zero() or len(pts) < 2:
+                    bad = (tot, pts, sl)
+            if bad is None:
+                ctx.ok(rule, "LocalLinearization:%s:L1-sum-%s" % (tn, ax), fn.where(), fn.short, detail=info)
+            else:
+                tot, pts, sl = bad
+                where = fn.where()
+                for s in sl:
+                    if s.kind == ax:
+                        where = s.coeff_fn.where(s.coeff_node)
+                if len(pts) < 2:
+                    msg = "only %d point has a %s slot: a two/three-point observation must depend on " \
+                          "coordinate differences" % (len(pts), ax)
+                else:
+                    txt = str(tot)
+                    if len(txt) > 300:
+                        txt = txt[:300] + "..."
+                    msg = "the %s-coefficients over all points do not sum to zero (translation invariance " \
+                          "broken): sum = %s" % (ax, txt)
+                ctx.bad(rule, "LocalLinearization:%s:L1-sum-%s" % (tn, ax), where, fn.short, msg=msg,
+                        detail=info)
+    ctx.floor(rule, 18, n_axes, "(observation type, axis) coefficient sums")
+
+
+# =========================================================================== intervals (W1)
+
+INF = float("inf")
+TOPI = (-INF, INF)
+
+
+def _join(a, b):
+    return (min(a[0], b[0]), max(a[1], b[1]))
+
+
+class Intervals:
+    """Forward interval analysis of the floating locals of one function, with closed-form summaries
+    for wrap loops (`while (v > C) v -= K`, `while (v < C) v += K`) and range facts for
+    fmod/remainder.  Used to bound the value assigned to the right-hand side."""
+
+    def __init__(self, sym):
+        self.sym = sym
+        self.fn = sym.fn
+        self.cfg = self.fn.cfg
+        self.nodes = self.fn.nodes
+        self.rd = sym.rd
+        self.before = {}          # element node id -> state before it (joined over visits)
+        self.loops = {}           # header block id -> wrap summary
+        for bid, blk in self.cfg.blocks.items():
+            t = blk.get("term")
+            tn = self.nodes.get(t) if isinstance(t, int) else None
+            if tn is not None and tn.get("k") in ("WhileStmt", "ForStmt") and blk.get("cond") is not None:
+                w = wrap_loop(tn)
+                if w and _is_local_ref(w["var"]) and w["var"]["ref"]["decl"] not in self.rd.escaped:
+                    C = self.sym.poly(w["bound"]).numeric()
+                    K = self.sym.poly(w["step"]).numeric()
+                    if C is not None and K is not None and K > 0:
+                        if (w["cmp"] in (">", ">=") and w["sign"] < 0) or \
+                                (w["cmp"] in ("<", "<=") and w["sign"] > 0):
+                            self.loops[bid] = (w["var"]["ref"]["decl"], w["cmp"], C, K)
+        self._run()
+
+    def const(self, n):
+        return self.sym.poly(n).numeric()
+
+    def eval(self, n, st):
+        k = n.get("k")
+        c = n.get("c") or []
+        if k in CASTS and c:
+            return self.eval(c[0], st)
+        if _is_local_ref(n) and n["ref"]["decl"] not in self.rd.escaped:
+            d = n["ref"]["decl"]
+            if d in st:
+                return st[d]
+        v = self.const(n)
+        if v is not None:
+            return (v, v)
+        if k == "UnaryOperator" and c and n.get("op") in ("-", "+"):
+            a = self.eval(c[0], st)
+            return (-a[1], -a[0]) if n["op"] == "-" else a
+        if k == "BinaryOperator" and len(c) == 2:
+            op = n.get("op")
+            if op in ("+", "-"):
+                a, b = self.eval(c[0], st), self.eval(c[1], st)
+                if op == "-":
+                    b = (-b[1], -b[0])
+                return (a[0] + b[0], a[1] + b[1])
+            if op in ("*", "/") and (n.get("t") or "") not in INT_TYPES:
+                a = self.eval(c[0], st)
+                kc = self.const(c[1])
+                if kc is None and op == "*":
+                    kc = self.const(c[0])
+                    a = self.eval(c[1], st)
+                if kc is not None and kc != 0 and a != TOPI:
+                    f = kc if op == "*" else 1.0 / kc
+                    lo, hi = a[0] * f, a[1] * f
+                    return (min(lo, hi), max(lo, hi))
+        if is_call(n) and plain_callee(n) in WRAP_CALLS:
+            a = call_args(n)
+            if len(a) == 2:
+                K = self.const(a[1])
+                if K is not None and K != 0:
+                    h = abs(K) * WRAP_CALLS[plain_callee(n)]
+                    return (-h, h)
+        if k == "ConditionalOperator" and len(c) == 3:
+            return _join(self.eval(c[1], st), self.eval(c[2], st))
+        return TOPI
+
+    def _refine(self, cond, st, truth):
+        """State on the true/false edge of a condition `v cmp C` (other conditions: unchanged)."""
+        if cond is None or cond.get("k") != "BinaryOperator" or cond.get("op") not in ("<", ">", "<=", ">="):
+            return st
+        l, r = cond["c"]
+        op = cond["op"]
+        while l.get("k") in CASTS and l.get("c"):
+            l = l["c"][0]
+        while r.get("k") in CASTS and r.get("c"):
+            r = r["c"][0]
+        if _is_local_ref(r) and not _is_local_ref(l):
+            l, r = r, l
+            op = {"<": ">", ">": "<", "<=": ">=", ">=": "<="}[op]
+        if not _is_local_ref(l) or l["ref"]["decl"] in self.rd.escaped:
+            return st
+        C = self.const(r)
+        if C is None:
+            return st
+        d = l["ref"]["decl"]
+        lo, hi = st.get(d, TOPI)
+        upper = op in ("<", "<=")          # v < C
+        if not truth:
+            upper = not upper              # !(v < C)  ->  v >= C
+        if upper:
+            hi = min(hi, C)
+        else:
+            lo = max(lo, C)
+        st = dict(st)
+        st[d] = (lo, hi)
+        return st
+
+    def _run(self):
+        cfg, nodes = self.cfg, self.nodes
+        # definitions by element
+        by_el = {}
+        for (elk, decl), rec in self.rd.defs.items():
+            by_el.setdefault(elk, []).append(rec)
+        IN = {b: None for b in cfg.blocks}
+        IN[cfg.entry] = {}
+        visits = {b: 0 for b in cfg.blocks}
+        work = [cfg.entry]
+        while work:
+            b = work.pop()
+            visits[b] += 1
+            st = dict(IN[b])
+            blk = cfg.blocks[b]
+            for e in blk.get("el", []):
+                ek = ("d", e["decl"]) if isinstance(e, dict) and "decl" in e else e
+                if isinstance(ek, dict):
+                    continue
+                if isinstance(ek, int):
+                    old = self.before.get(ek)
+                    if old is None:
+                        self.before[ek] = dict(st)
+                    else:
+                        for d in list(old):
+                            if d in st:
+                                old[d] = _join(old[d], st[d])
+                            else:
+                                del old[d]
+                for (decl, kind, node, extra) in by_el.get(ek, ()):
+                    if kind in ("init", "assign"):
+                        v = self.eval(node, st)
+                    elif kind == "compound":
+                        lhs, rhs = node["c"]
+                        cur = st.get(decl, TOPI)
+                        op = node.get("op")
+                        kc = self.const(rhs)
+                        if op in ("+=", "-=") :
+                            r = self.eval(rhs, st)
+                            if op == "-=":
+                                r = (-r[1], -r[0])
+                            v = (cur[0] + r[0], cur[1] + r[1])
+                        elif op in ("*=", "/=") and kc not in (None, 0) and cur != TOPI \
+                                and (node.get("t") or "") not in INT_TYPES:
+                            f = kc if op == "*=" else 1.0 / kc
+                            lo, hi = cur[0] * f, cur[1] * f
+                            v = (min(lo, hi), max(lo, hi))
+                        else:
+                            v = TOPI
+                    else:
+                        v = TOPI
+                    if v == TOPI or v[0] != v[0] or v[1] != v[1]:
+                        st.pop(decl, None)
+                    else:
+                        st[decl] = v
+            raw = [s for s in blk.get("succ", [])]
+            cond = nodes.get(blk.get("cond")) if isinstance(blk.get("cond"), int) else None
+            two_way = len(raw) == 2 and cond is not None
+            for i, s in enumerate(raw):
+                if s is None or s < 0:
+                    continue
+                out = st
+                if b in self.loops:
+                    if i == 0:
+                        continue            # body is summarised, not interpreted
+                    d, cmp_, C, K = self.loops[b]
+                    lo, hi = st.get(d, TOPI)
+                    if cmp_ in (">", ">="):
+                        if hi > C or (cmp_ == ">=" and hi >= C):
+                            lo, hi = min(lo, C - K), min(hi, C)
+                    else:
+                        if lo < C or (cmp_ == "<=" and lo <= C):
+                            lo, hi = max(lo, C), max(hi, C + K)
+                    out = dict(st)
+                    out[d] = (lo, hi)
+                elif two_way:
+                    out = self._refine(cond, st, i == 0)
+                old = IN[s]
+                if old is None:
+                    IN[s] = dict(out)
+                    work.append(s)
+                    continue
+                changed = False
+                for d in list(old):
+                    if d not in out:
+                        del old[d]
+                        changed = True
+                    else:
+                        j = _join(old[d], out[d])
+                        if j != old[d]:
+                            if visits[s] > 6:
+                                del old[d]      # widening: give up on this variable
+                            else:
+                                old[d] = j
+                            changed = True
+                if changed:
+                    work.append(s)
+
+    def value_at(self, assign_node, expr):
+        """Interval of `expr` evaluated just before CFG element `assign_node`."""
+        st = self.before.get(assign_node["id"])
+        if st is None:
+            return TOPI
+        return self.eval(expr, st)
+
+
+# =========================================================================== units
+
+MM_PER_M = (Fraction(1000), 0)            # 1e3
+CC_PER_RAD = (Fraction(2000000), -1)      # R2CC = 200e4/pi
+
+
+def cdiv(a, b):
+    return (a[0] / b[0], a[1] - b[1])
+
+
+def obs_scale(angular):
+    """internal unit (m | rad) -> unit of residuals/right-hand sides (mm | cc)."""
+    return CC_PER_RAD if angular else MM_PER_M
+
+
+def unknown_scale(kind):
+    return CC_PER_RAD if kind == "orientation" else MM_PER_M
+
+
+def is_value_atom(a):
+    return any(a.startswith(v + "(") for v in table()["value_accessors"])
+
+
+def is_residual_atom(a):
+    return any(a.startswith(v + "(") for v in table()["residual_accessors"])
+
+
+def monomials(p):
+    """[(constant (|c|, pi exponent), sign, non-constant factors)]"""
+    out = []
+    for m, c in p.t.items():
+        (cc, pe), rest = Poly.split(m, c)
+        out.append(((abs(cc), pe), 1 if cc > 0 else -1, rest))
+    return out
+
+
+def check_rhs_scale(p, angular):
+    """None if every term of the right-hand side carries the internal->residual scale factor, else a
+    message."""
+    exp = obs_scale(angular)
+    ms = monomials(p)
+    val = [m for m in ms if len(m[2]) == 1 and m[2][0][1] == 1 and is_value_atom(m[2][0][0])]
+    if not val:
+        return "the right-hand side is not an affine function of obs->value() that the rule can read"
+    for const, sign, rest in val:
+        if const != exp:
+            return "obs->value() enters the right-hand side with factor %s, expected %s" % (
+                const_name(*const), const_name(*exp))
+    for const, sign, rest in ms:
+        if rest and const != exp:
+            return "a term of the right-hand side carries the factor %s, the observed value carries %s " \
+                   "(mixed units)" % (const_name(*const), const_name(*exp))
+    return None
+
+
+# =========================================================================== R-UNIT U1
+
+def _arith_parent(fn, n):
+    p = fn.parent(n)
+    if p is None:
+        return False
+    k = p.get("k")
+    if k == "BinaryOperator" and p.get("op") in ("+", "-", "*", "/"):
+        return True
+    if k == "UnaryOperator" and p.get("op") in ("+", "-"):
+        return True
+    if k in CASTS and (p.get("t") or "") in FLOAT_TYPES:
+        return True
+    if k == "InitListExpr":
+        return True
+    return False
+
+
+def residual_combinations(fx, rec, fn, sym, out, stack=()):
+    """Collect (fn, node, value constant, residual constant) for every additive combination of
+    obs->value() with a solution/residual vector element reachable from fn (this-calls inlined,
+    virtual calls dispatched relative to the most derived class rec)."""
+    if fn.body is None or fn.key in stack:
+        return
+    out["functions"].append(fn)
+    for n in fn.walk():
+        k = n.get("k")
+        t = n.get("t") or ""
+        p = None
+        if k == "CompoundAssignOperator" and n.get("op") in ("+=", "-=") and t in FLOAT_TYPES:
+            a, b = sym.poly(n["c"][0]), sym.poly(n["c"][1])
+            p = a + b if n["op"] == "+=" else a - b
+        elif t in FLOAT_TYPES and k in ("BinaryOperator", "UnaryOperator", "DeclRefExpr") \
+                and n.get("op") in (None, "+", "-", "*", "/") and not _arith_parent(fn, n):
+            if k == "DeclRefExpr" and not _is_local_ref(n):
+                continue
+            par = fn.parent(n)
+            if par is not None and par.get("k") in ("BinaryOperator", "CompoundAssignOperator") \
+                    and par.get("op") in ("=", "+=", "-=", "*=", "/=") and par["c"][0] is n:
+                continue            # plain store target
+            p = sym.poly(n)
+        if p is not None:
+            vals, ress = [], []
+            for const, sign, rest in monomials(p):
+                if len(rest) == 1 and rest[0][1] == 1:
+                    if is_value_atom(rest[0][0]):
+                        vals.append(const)
+                    elif is_residual_atom(rest[0][0]):
+                        ress.append((const, rest[0][0]))
+            if vals and ress:
+                out["combos"].append((fn, n, vals, ress))
+        if k == "CXXMemberCallExpr":
+            obj = F.call_object(n)
+            if obj is not None and obj.get("k") == "CXXThisExpr":
+                f0 = fx.functions.get(n.get("calleeKey"))
+                cal = None
+                if f0 is not None:
+                    for r, mm, f in methods_in_hierarchy(fx, rec):
+                        if f is f0 or (mm.get("key") == n.get("calleeKey")):
+                            cal = dispatch(fx, rec, n.get("calleeKey"), mm["name"],
+                                           tuple(mm.get("params") or ()))
+                            break
+                else:
+                    # pure virtual declared in a base: resolve by name/arity in the hierarchy
+                    name = (n.get("callee") or "").split("::")[-1]
+                    for r, mm, f in methods_in_hierarchy(fx, rec):
+                        if mm.get("name") == name and len(mm.get("params") or ()) == len(call_args(n)) \
+                                and f.body is not None:
+                            cal = f
+                            break
+                if cal is not None and cal.body is not None:
+                    env = {}
+                    for pp, a in zip(cal.params, call_args(n)):
+                        if "decl" in pp:
+                            env[pp["decl"]] = (a, sym)
+                    residual_combinations(fx, rec, cal, sym.child(cal, env, n), out, stack + (fn.key,))
+
+
+def visitor_classes(fx, M):
+    """Concrete classes that implement visit(T*) for local observation classes: qn -> (rec, {T: Fn})."""
+    res = {}
+    for q, rec in sorted(fx.classes.items()):
+        own = [m for m in rec.get("methods", []) if visit_target(m) in M.obs]
+        inherited = False
+        if not own:
+            for _, br in all_bases(fx, rec):
+                if br is not None and any(visit_target(m) in M.obs for m in br.get("methods", [])):
+                    inherited = True
+        if not own and not inherited:
+            continue
+        tm = {}
+        for r, m, f in methods_in_hierarchy(fx, rec):
+            t = visit_target(m)
+            if t in M.obs and t not in tm and not m.get("pure"):
+                tm[t] = (m, f)
+        res[q] = (rec, tm)
+    return res
+
+
+def rule_unit(ctx):
+    rule = "R-UNIT"
+    fx = ctx.facts
+    M = lin_model(ctx)
+    f = M.fields
+    # (a) right-hand sides and coefficients of the linearisation
+    for t in sorted(M.models):
+        tn = M.tname(t)
+        ang = M.angular[t]
+        hm, hw = M.models[t], M.models_mw[t]
+        fn = hm.functions[-1] if hm.functions else hm.entry
+        unitname = "cc" if ang else "mm"
+        if not hw.rhs_sites:
+            ctx.bad(rule, "LocalLinearization:%s:U1-rhs-scale" % tn, fn.where(), fn.short,
+                    msg="%s is never assigned for this observation type" % f["rhs"])
+        else:
+            msgs = []
+            where = fn.where()
+            for sym, g, n in hw.rhs_sites:
+                m = check_rhs_scale(sym.poly(n["c"][1]), ang)
+                if m:
+                    msgs.append(m)
+                    where = g.where(n)
+            ctx.report(rule, "LocalLinearization:%s:U1-rhs-scale" % tn, not msgs, where, fn.short,
+                       msg="; ".join(msgs) + (" (%s observation: right-hand side in %s)"
+                                              % ("angular" if ang else "linear", unitname) if msgs else ""),
+                       detail={"angular": ang, "expected": const_name(*obs_scale(ang))})
+        msgs = []
+        where = fn.where()
+        nslots = 0
+        for sl in handler_slots(hm):
+            for s in sl:
+                if s.kind is None:
+                    raise AnalysisBroken("R-UNIT: %s: unclassified index expression %s" % (tn, s.index_text))
+                nslots += 1
+                exp = cdiv(obs_scale(ang), unknown_scale(s.kind))
+                for const, sign, rest in monomials(s.coeff):
+                    if const != exp:
+                        msgs.append("coefficient of the %s unknown carries the factor %s, expected %s "
+                                    "(%s per %s)" % (s.kind, const_name(*const), const_name(*exp), unitname,
+                                                     "cc" if s.kind == "orientation" else "mm"))
+                        where = s.coeff_fn.where(s.coeff_node)
+                        break
+        ctx.report(rule, "LocalLinearization:%s:U1-coeff-scale" % tn, not msgs, where, fn.short,
+                   msg="; ".join(sorted(set(msgs))), detail={"slots": nslots, "angular": ang})
+    ctx.floor(rule, 13, len(M.models), "LocalLinearization handlers")
+    # (b) sibling visitors combining obs->value() with a residual / unknown
+    n_sib = 0
+    sib_classes = set()
+    for q, (rec, tm) in visitor_classes(fx, M).items():
+        if q == LL or rec.get("abstract"):
+            continue
+        for t, (m, fn) in sorted(tm.items()):
+            if fn.body is None:
+                continue
+            out = {"combos": [], "functions": []}
+            residual_combinations(fx, rec, fn, Sym(fx, fn), out)
+            if not out["combos"]:
+                continue
+            for g in out["functions"]:
+                ctx.saw(g)
+            ang = M.angular[t]
+            exp = obs_scale(ang)
+            msgs = []
+            where = fn.where()
+            for g, n, vals, ress in out["combos"]:
+                for vc in vals:
+                    for rc, ratom in ress:
+                        ratio = cdiv(vc, rc)
+                        if ratio != exp:
+                            msgs.append("obs->value() is scaled by %s and the residual/unknown element by %s: "
+                                        "ratio %s, expected %s (%s per %s)"
+                                        % (const_name(*vc), const_name(*rc), const_name(*ratio),
+                                           const_name(*exp), "cc" if ang else "mm", "rad" if ang else "m"))
+                            where = g.where(n)
+            n_sib += 1
+            sib_classes.add(q)
+            ctx.report(rule, "%s::visit(%s):U1-residual-scale" % (short(q), M.tname(t)), not msgs, where,
+                       fn.short, msg="; ".join(sorted(set(msgs))),
+                       detail={"combinations": len(out["combos"]), "angular": ang})
+    ctx.floor(rule, 50, n_sib, "visit(T*) methods combining obs->value() with a residual element")
+    ctx.floor(rule, 4, len(sib_classes), "sibling visitor classes")
+
+
+# =========================================================================== R-WRAP W1 / W2
+
+def _interval_of(sym, at_node, expr, cache):
+    """Interval of expr at CFG element at_node of sym's function; parameters of inlined helpers are
+    followed to the caller's argument at the call site."""
+    iv = cache.get(id(sym))
+    if iv is None:
+        iv = cache[id(sym)] = Intervals(sym)
+    v = iv.value_at(at_node, expr)
+    if v != TOPI:
+        return v
+    e = expr
+    while e.get("k") in CASTS and e.get("c"):
+        e = e["c"][0]
+    if _is_local_ref(e) and e["ref"].get("dk") == "parm" and e["ref"]["decl"] in sym.env \
+            and sym.parent is not None and sym.callsite is not None:
+        node, psym = sym.env[e["ref"]["decl"]]
+        return _interval_of(psym, sym.callsite, node, cache)
+    return v
+
+
+def wrap_sites(fx):
+    """All wrap loops of the library: fn -> list of recognised loop descriptions."""
+    res = {}
+    for key, fn in fx.functions.items():
+        if fn.body is None or not fn.file.startswith("lib/"):
+            continue
+        for n in fn.walk():
+            if n.get("k") in ("WhileStmt", "DoStmt", "ForStmt"):
+                w = wrap_loop(n)
+                if w:
+                    res.setdefault(fn.key, (fn, []))[1].append((n, w))
+    return res
+
+
+def _guard_holds(fx, fn, guard):
+    """Structural guard of an `unreached` classification."""
+    if not guard:
+        return False, "no guard given"
+    if guard.get("no_callers"):
+        for g in fx.functions.values():
+            if g.body is None or g is fn:
+                continue
+            for c in g.calls():
+                if c.get("calleeKey") == fn.key:
+                    return False, "%s is now called from %s" % (fn.short, g.short)
+        return True, "no call of %s in the analysed sources" % fn.short
+    cls = guard.get("no_construction_of")
+    if cls:
+        for g in fx.functions.values():
+            if g.body is None or (g.cls and strip_targs(g.cls) == cls):
+                continue
+            for n in g.walk():
+                if n.get("k") in ("CXXConstructExpr", "CXXTemporaryObjectExpr", "CXXNewExpr") and \
+                        (strip_targs(n.get("calleeClass") or "") == cls
+                         or strip_targs(n.get("callee") or "").startswith(cls + "::")):
+                    return False, "%s is now constructed in %s" % (cls, g.short)
+            for d in (x for n in g.walk() if n.get("k") == "DeclStmt" for x in n.get("decls", [])):
+                if strip_targs((d.get("t") or "").replace("const ", "").strip()) == cls:
+                    return False, "%s is now instantiated in %s" % (cls, g.short)
+        return True, "class %s is never constructed in the analysed sources" % cls
+    return False, "unknown guard"
+
+
+def rule_wrap(ctx):
+    rule = "R-WRAP"
+    fx = ctx.facts
+    M = lin_model(ctx)
+    T = table()
+    # ---- W1: angular right-hand sides that are differences of directions are reduced to the half circle
+    exempt = T["w1_exempt"]
+    n_w1 = 0
+    for t in sorted(M.models):
+        if not M.angular[t]:
+            continue
+        tn = M.tname(t)
+        hm = M.models_mw[t]
+        fn = hm.functions[-1] if hm.functions else hm.entry
+        if tn in exempt:
+            ctx.ok(rule, "LocalLinearization:%s:W1-exempt" % tn, fn.where(), fn.short,
+                   detail={"exempt": exempt[tn]})
+            continue
+        n_w1 += 1
+        H = obs_scale(True)
+        half = float(H[0]) * math.pi ** (H[1] + 1)         # scale * pi  (= 200e4 cc)
+        if not hm.rhs_sites:
+            ctx.bad(rule, "LocalLinearization:%s:W1-half-circle" % tn, fn.where(), fn.short,
+                    msg="%s is never assigned" % M.fields["rhs"])
+            continue
+        cache = {}
+        worst = None
+        where = fn.where()
+        for sym, g, n in hm.rhs_sites:
+            lo, hi = _interval_of(sym, n, n["c"][1], cache)
+            if lo < -half * (1 + 1e-9) or hi > half * (1 + 1e-9):
+                worst = (lo, hi)
+                where = g.where(n)
+        ok = worst is None
+        ctx.report(rule, "LocalLinearization:%s:W1-half-circle" % tn, ok, where, fn.short,
+                   msg="" if ok else "the angular right-hand side is not reduced to [-%g, %g] cc before the "
+                   "assignment: derivable range is [%g, %g]" % (half, half, worst[0], worst[1]),
+                   detail={"half_circle_cc": half})
+    ctx.floor(rule, 3, n_w1, "angular difference-of-directions handlers")
+    # ---- W2: wrap-by-repeated-subtraction sites, classified in the table
+    sites = wrap_sites(fx)
+    tab = T["w2_sites"]
+    seen = set()
+    n_loops = 0
+    for key, (fn, loops) in sorted(sites.items()):
+        ctx.saw(fn)
+        n_loops += len(loops)
+        sig = fn.sig
+        seen.add(sig)
+        vars_ = []
+        for n, w in loops:
+            if not any(_same_lvalue(w["var"], v) for v in vars_):
+                vars_.append(w["var"])
+        ent = tab.get(sig)
+        keyi = "%s:W2-wrap-loop" % sig
+        where = fn.where(loops[0][0])
+        det = {"loops": len(loops), "wrapped_variables": len(vars_)}
+        if ent is None:
+            ctx.bad(rule, keyi, where, fn.short, detail=det,
+                    msg="unclassified normalisation by repeated addition/subtraction (%d loop(s)): decide "
+                    "whether the operand is bounded only by the input and add it to tables/lin.json w2_sites"
+                    % len(loops))
+            continue
+        det["class"] = ent["class"]
+        det["reason"] = ent["reason"]
+        if len(vars_) > ent.get("vars", 0):
+            ctx.bad(rule, keyi, where, fn.short, detail=det,
+                    msg="%d wrapped variables, only %d were read and classified (%s): a new wrap loop appeared"
+                    % (len(vars_), ent.get("vars", 0), ent["class"]))
+            continue
+        if ent["class"] == "input-facing":
+            ctx.bad(rule, keyi, where, fn.short, detail=det,
+                    msg="wrap loop `while (v cmp C) v -+= K` applied to a value bounded only by the input: "
+                    "does not terminate (in practice) for huge operands - %s" % ent["reason"])
+        elif ent["class"] == "internal":
+            ctx.ok(rule, keyi, where, fn.short, detail=det)
+        elif ent["class"] == "unreached":
+            g_ok, g_msg = _guard_holds(fx, fn, ent.get("guard"))
+            det["guard"] = g_msg
+            ctx.report(rule, keyi, g_ok, where, fn.short, detail=det,
+                       msg="" if g_ok else "classified as unreached, but %s - reclassify" % g_msg)
+        else:
+            raise AnalysisBroken("R-WRAP: unknown class %r for %s in tables/lin.json" % (ent["class"], sig))
+    for sig in tab:
+        if sig not in seen:
+            ctx.note("R-WRAP W2: table entry %s has no wrap loop any more (rewritten or removed)" % sig)
+    ctx.floor(rule, 10, len(sites), "functions with wrap loops")
+    return sites
+
+
+# =========================================================================== R-VIS V1
+
+def rule_vis_local(ctx):
+    rule = "R-VIS"
+    fx = ctx.facts
+    M = lin_model(ctx)
+    obs = M.obs
+    aov = fx.cls(AOV)
+    # (a) the common base lists every concrete observation class
+    visited = set()
+    for b in aov.get("bases", []):
+        name = b.get("qnt") or b.get("t") or ""
+        if strip_targs(name) == "GNU_gama::Visitor" and "<" in name:
+            visited.add(name[name.index("<") + 1:name.rindex(">")].strip())
+    for t in sorted(obs):
+        ok = t in visited
+        ctx.report(rule, "AllObservationsVisitor:covers:%s" % M.tname(t), ok,
+                   "%s:%s" % (aov.get("file"), aov.get("line")), short(AOV),
+                   msg="" if ok else "concrete observation class %s is not a Visitor<> base of "
+                   "AllObservationsVisitor: exhaustiveness of every local visitor is no longer enforced "
+                   "by the compiler" % short(t))
+    for t in sorted(visited - set(obs)):
+        ctx.bad(rule, "AllObservationsVisitor:covers:%s" % t.split("::")[-1],
+                "%s:%s" % (aov.get("file"), aov.get("line")), short(AOV),
+                msg="Visitor<%s> base but %s is not a concrete class derived from local::Observation" % (t, t))
+    ctx.floor(rule, 13, len(obs), "concrete local observation classes")
+    # (b) every class implementing visit(T*) derives from AllObservationsVisitor and overrides all
+    n_cls = 0
+    for q, (rec, tm) in visitor_classes(fx, M).items():
+        if q == AOV:
+            continue
+        n_cls += 1
+        where = "%s:%s" % (rec.get("file"), rec.get("line"))
+        ok = derives_from(fx, rec, AOV)
+        ctx.report(rule, "%s:derives-AllObservationsVisitor" % short(q), ok, where, short(q),
+                   msg="" if ok else "implements visit(T*) for local observations without deriving from "
+                   "AllObservationsVisitor: a new observation type can be silently skipped")
+        if rec.get("abstract"):
+            continue
+        missing = sorted(M.tname(t) for t in obs if t not in tm or tm[t][1].body is None)
+        ctx.report(rule, "%s:overrides-all" % short(q), not missing, where, short(q),
+                   msg="" if not missing else "no visit() implementation for: %s" % ", ".join(missing),
+                   detail={"implemented": len(tm)})
+    ctx.floor(rule, 16, n_cls, "local visitor classes")
+    # (c) the linearisation handles every concrete observation class
+    for t in sorted(obs):
+        hm = M.models.get(t)
+        ok = hm is not None and bool(hm.rhs_sites) and hm.size_resets >= 1
+        fn = hm.entry if hm is not None else None
+        ctx.report(rule, "LocalLinearization:handles:%s" % M.tname(t), ok,
+                   fn.where() if fn else "", fn.short if fn else short(LL),
+                   msg="" if ok else ("no visit(%s*) in LocalLinearization" % M.tname(t) if hm is None else
+                                      "visit(%s*) does not produce an equation (no assignment of %s / reset of "
+                                      "%s)" % (M.tname(t), M.fields["rhs"], M.fields["size"])))
